@@ -28,6 +28,8 @@ def run(ctx, R, tier):
     write_unconditional(F, R, rule='B.C17.cmd', floor=6, fn_filter=lambda q: q.startswith('modulator::') and 'handle' in q)
     from .c07 import pickup_order
     pickup_order(F, R, rule='B.C17.pickup-order', which=('renderer',))
+    # 'equals the mapping of the modulator's current value': nothing runs on a cached copy of a parameter's value
+    c06.param_cache(F, R, rule='B.C17.param-cache')
     from ..enginea import run_singular_only
     run_singular_only(R, F, lambda fn: 'value::Mapping' in fn or 'modulator::' in fn, floor=2)
 
